@@ -94,6 +94,8 @@ type Engine struct {
 	sol  *Solver
 	cfg  Config
 
+	baseMaxPaths, baseMaxSteps int
+
 	fns map[*ssa.Function]*fnInfo
 
 	// DFS state
@@ -625,12 +627,26 @@ func SortedKeys[V any](m map[string]V) []string {
 	return ks
 }
 
-// SetMaxPaths overrides the per-run path budget (0 restores the configured default).
+// SetMaxPaths overrides the per-run path budget (0 restores the configured value).
 func (e *Engine) SetMaxPaths(n int) {
+	if e.baseMaxPaths == 0 {
+		e.baseMaxPaths = e.cfg.MaxPaths
+	}
 	if n <= 0 {
-		n = DefaultConfig().MaxPaths
+		n = e.baseMaxPaths
 	}
 	e.cfg.MaxPaths = n
+}
+
+// SetMaxSteps overrides the per-path step budget (0 restores the configured value).
+func (e *Engine) SetMaxSteps(n int) {
+	if e.baseMaxSteps == 0 {
+		e.baseMaxSteps = e.cfg.MaxSteps
+	}
+	if n <= 0 {
+		n = e.baseMaxSteps
+	}
+	e.cfg.MaxSteps = n
 }
 
 // SetValidate switches path sampling for native validation on or off for the next Explore.
